@@ -431,7 +431,7 @@ pub fn def() -> CheckDef {
                     q.apply(&op, &mut l)
                 }),
             },
-            sub("random_sequences", 20_000, 1_000_000, case_strategy, |c: &ArrCase, l: &mut Local| check_case(c, l)),
+            sub("random_sequences", 200_000, 5_000_000, case_strategy, |c: &ArrCase, l: &mut Local| check_case(c, l)),
         ],
     }
 }
